@@ -84,6 +84,9 @@ class PathCtx(object):
         self.branch_unknown = 0
         self.twin_needed = twin_needed  # set of labels still lacking a sat twin, or None=all
         self.defs = 0
+        self.decided = {}
+        self._keep = []        # keeps decided ASTs alive so that ids are not reused
+        self.uf_used = False   # an uninterpreted function (log/exp) occurs: numeric witness values are not comparable
 
     # ---------------------------------------------------------------- names
     def fresh(self, stem):
@@ -136,6 +139,22 @@ class PathCtx(object):
         """Decide a symbolic condition; returns a Python bool."""
         if time.time() - self.t0 > self.path_budget_s:
             raise PathTimeout()
+        # a condition already decided on this path (hash-consed AST id) needs
+        # neither a query nor a new decision
+        neg = False
+        base = cond
+        while z3.is_not(base):
+            base = base.arg(0)
+            neg = not neg
+        key = base.get_id()
+        if key in self.decided:
+            return self.decided[key] != neg
+        r = self._branch(cond)
+        self.decided[key] = (r != neg)
+        self._keep.append(base)
+        return r
+
+    def _branch(self, cond):
         if self.pos < len(self.prefix):
             d = self.prefix[self.pos]
             self.pos += 1
